@@ -5,6 +5,7 @@ go 1.25.5
 require (
 	github.com/pkg/errors v0.9.1
 	github.com/ysugimoto/falco/v2 v2.0.0-00010101000000-000000000000
+	gopkg.in/yaml.v3 v3.0.1
 )
 
 require (
